@@ -45,6 +45,8 @@ func checkC12(c *Ctx) {
 		c.freshTemps(pk)
 		c.ownStateUnderNotTip(pk)
 	}
+	c.Decides("PATH/GF (set-up): every node is renumbered unconditionally before the passes (state vectors are indexed by id); each possible state of a tip is initialised with the constant 1")
+	c.parsimonyInit()
 	c.Floor("SIBLING", 6)
 	c.Floor("GF", 4)
 	c.Floor("FRESH", 4)
